@@ -166,6 +166,23 @@ impl LanguageIdentifier {
         region: Option<subtags::Region>,
         variants: Option<Box<[subtags::Variant]>>,
     ) -> Self {
+        // An empty list has a single representation (`None`), as in every
+        // other constructor: `Some([])` would print like `None` but compare,
+        // hash and order differently.
+        let is_empty = match &variants {
+            Some(v) => v.is_empty(),
+            None => false,
+        };
+        if is_empty {
+            // an empty boxed slice owns no allocation
+            core::mem::forget(variants);
+            return Self {
+                language,
+                script,
+                region,
+                variants: None,
+            };
+        }
         Self {
             language,
             script,
